@@ -104,7 +104,7 @@ pub struct C13Cfg {
 }
 
 /// shift a target whose significant bits sit in the upper half (all targets used here do)
-fn shift_target(t: Target, left: bool, k: u8) -> Target {
+pub fn shift_target(t: Target, left: bool, k: u8) -> Target {
     let mut x = t.to_be_bytes();
     let hi = u128::from_be_bytes(x[0..16].try_into().unwrap());
     let hi = if left { hi << k } else { hi >> k };
